@@ -61,7 +61,7 @@ func c03Programs(r *vc.Run) {
 		c := c01GenCase(rnd, i, kinds, "k")
 		if i%2 == 0 {
 			// emphasise composite and non-integer keys
-			pk := []string{"composite", "composite3", "varchar", "binary"}[rnd.Intn(4)]
+			pk := []string{"composite", "composite3", "varchar", "binary", "varchar_colon", "composite_txt"}[rnd.Intn(6)]
 			c.Tables[0] = atGenTable(rnd, c.Tables[0].Name, pk, kinds, 2+rnd.Intn(2), 3+rnd.Intn(4), rnd.Bool())
 			// regenerate the program for the new table
 			c2 := c01GenCaseForTable(rnd, c.Name, c.Tables[0])
@@ -248,7 +248,7 @@ func c03SelectForUpdate(r *vc.Run) {
 		n = v
 	}
 	for i := 0; i < n; i++ {
-		pk := []string{"int", "composite", "varchar", "composite3", "binary", "composite_txt"}[rnd.Intn(6)]
+		pk := []string{"int", "composite", "varchar", "composite3", "binary", "composite_txt", "varchar_colon"}[rnd.Intn(7)]
 		t := atGenTable(rnd, fmt.Sprintf("s%04dt", i), pk, atSafeKinds, 2, 3+rnd.Intn(3), false)
 		d := *t.Def
 		db.E.CreateTable(&d)
@@ -523,7 +523,7 @@ func c03TwoTx(r *vc.Run) {
 	orders := []string{"a-first", "a-register-held", "b-after-a-global-end", "a-register-refused"}
 	for i := 0; i < n; i++ {
 		order := orders[i%len(orders)]
-		pk := []string{"int", "composite", "varchar"}[rnd.Intn(3)]
+		pk := []string{"int", "composite", "varchar", "varchar_colon"}[rnd.Intn(4)]
 		t := atGenTable(rnd, fmt.Sprintf("w%04dt", i), pk, []string{"int", "varchar"}, 2, 4, false)
 		d := *t.Def
 		db.E.CreateTable(&d)
